@@ -1,6 +1,7 @@
 package scen
 
 import (
+	"time"
 	"fmt"
 	"sort"
 	"strings"
@@ -624,6 +625,63 @@ func engStopWaitRespawn(variants []swrParams) vsched.Instance {
 		return append(vs, bad...)
 	}
 	return vsched.Instance{Body: body, Check: check, Outcome: func() string { return p.String() + "|" + k.LogString() }}
+}
+
+// engSlowChild (C02): a parent is stopped while one of its children is busy with a message for a long
+// (virtual) time. Whatever the parent does about a child that takes its time - it may only wait -
+// the child's Receive calls must not overlap: its Stopped comes after the message it is busy with.
+func engSlowChild(stops []int) vsched.Instance {
+	var k *Kit
+	stop := 0
+	body := func() {
+		stop = stops[chooseVariant(len(stops))]
+		k = NewKit()
+		var child *actor.PID
+		parent := k.E.Spawn(k.Producer("P", func(k *Kit, c *actor.Context, inc int) {
+			if _, ok := c.Message().(actor.Started); ok {
+				child = c.SpawnChild(k.Producer("C", func(k *Kit, c *actor.Context, inc int) {
+					if s, ok := c.Message().(string); ok && s == "work" {
+						vsched.Sleep(5 * time.Second) // busy: far longer than anybody's patience
+						k.Note("C", "work done")
+					}
+				}), "c", actor.WithID("1"))
+			}
+		}), "p", actor.WithID("1"))
+		vsched.EndSetup()
+		k.E.Send(child, "work")
+		var done <-chan struct{}
+		if stop == 1 {
+			done = k.E.Poison(parent).Done()
+		} else {
+			done = k.E.Stop(parent).Done()
+		}
+		vsched.Recv(done)
+		vsched.Quiesce()
+	}
+	check := func(r *vsched.Result) []vsched.Violation {
+		vs := stdEnd(r)
+		if len(vs) > 0 {
+			return vs
+		}
+		vs = append(vs, k.serial()...)
+		vs = append(vs, lifecycleShape(k, "C", true)...)
+		vs = append(vs, lifecycleShape(k, "P", true)...)
+		// the child's Stopped is its last delivery and comes after the work was done
+		doneAt, stoppedAt := -1, -1
+		for i, e := range k.Log {
+			if e.Kind == "note" && e.Actor == "C" {
+				doneAt = i
+			}
+			if e.Kind == "recv" && e.Actor == "C" && e.Msg == "Stopped" && stoppedAt < 0 {
+				stoppedAt = i
+			}
+		}
+		if userMsgs(k.Recv("C")) != nil && (doneAt < 0 || stoppedAt < doneAt) {
+			vs = append(vs, V("serial/stopped-delivered-while-busy", "stop%d: the child was told Stopped (log position %d) before it had finished the message it was busy with (%d); log: %s", stop, stoppedAt, doneAt, k.LogString()))
+		}
+		return vs
+	}
+	return vsched.Instance{Body: body, Check: check, Outcome: func() string { return fmt.Sprint(stop) + k.LogString() }}
 }
 
 // ------------------------------------------------------------------ C09 dead letters
